@@ -151,7 +151,7 @@ func runNames(c NCase) (ev.Info, error) {
 		}
 		var arr []map[string]any
 		if err := json.Unmarshal(r.Context, &arr); err != nil {
-			return info, fmt.Errorf("execution %d: binding context file is not a JSON array: %s", r.Seq, r.RawCtx)
+			return info, fmt.Errorf("OBSERVED: execution %d: binding context file is not a JSON array (as read by the hook process itself): %s", r.Seq, r.RawCtx)
 		}
 		kinds := map[string]map[string]bool{}
 		for i, item := range arr {
